@@ -209,6 +209,45 @@ pub fn run(ctx: &mut Ctx) {
             }
         }
     }
+    // ---- trees that are NOT fresh: reset and reload over storage left behind by a longer history ----
+    // (added after seeded change C10-1: `prove` preferring stale nodes of main storage over its scratch storage)
+    {
+        let lim = ctx.n(20, 40);
+        for first in 1..=lim {
+            for second in 1..=first {
+                if !ctx.thorough() && (first + second) % 3 != 0 && !(first == 8 && second == 7) { continue; }
+                let leaves = seq_leaves(first, 8, 0x9E37_79B9, first * 1000 + second);
+                let hashes: Vec<B32> = leaves.iter().take(second as usize).map(|l| r::leaf_hash(l)).collect();
+                let want_root = r::mth_hashes(&hashes);
+                // (a) in-memory tree: push `first`, reset, push `second`
+                let mut mem = in_memory::MerkleTree::new();
+                for l in &leaves { mem.push(l); }
+                mem.reset();
+                for l in leaves.iter().take(second as usize) { mem.push(l); }
+                // (b) storage-backed tree loaded at `second` over the storage of the `first`-leaf tree
+                let mut sm = StorageMap::<NodesTable>::new();
+                { let mut st = binary::MerkleTree::<NodesTable, _>::new(&mut sm); for l in &leaves { st.push(l).unwrap(); } }
+                let loaded = binary::MerkleTree::<NodesTable, _>::load(&sm, second);
+                for i in 0..second {
+                    let desc = format!("reused-tree first={first} second={second} i={i}");
+                    let want = r::audit_path(i as usize, &hashes);
+                    let mut got: Vec<(&str, Option<(B32, Vec<B32>)>)> = vec![("reset", mem.prove(i))];
+                    if let Ok(t) = &loaded { got.push(("load", t.prove(i).ok())); }
+                    for (how, pr) in got {
+                        match pr {
+                            None => ctx.oracle_fail("reused-tree-prove-refused-in-range", &desc, how),
+                            Some((root, proof)) => {
+                                if root != want_root || proof != want { ctx.oracle_fail("reused-tree-proof-differs-from-rfc6962-audit-path", &desc, how); }
+                                let v = verify_case(ctx, "reused-tree", &root, &leaves[i as usize], i, second, &proof);
+                                if v != Some(true) { ctx.oracle_fail("reused-tree-own-proof-does-not-verify", &desc, how); }
+                            }
+                        }
+                    }
+                    ctx.count("reused-tree.proofs");
+                }
+            }
+        }
+    }
     // ---- sampled larger trees: 2^k-1, 2^k, 2^k+1, random; boundary indices ----
     let maxk = if ctx.thorough() { 15 } else { 11 };
     let mut counts: Vec<u64> = vec![];
